@@ -31,6 +31,39 @@
 
 namespace {
 
+// every switch that is in effect contributes its own bit to the feature tag (the tag keeps differently configured translation units from
+// sharing one set of mangled names for types whose layout depends on the switches)
+constexpr int tagBits(unsigned v) { return v == 0 ? 0 : int(v & 1u) + tagBits(v >> 1); }
+constexpr int switchesInEffect() {
+	return 0
+#ifndef FFSM2_DISABLE_TYPEINDEX
+		+ 1
+#endif
+#ifdef FFSM2_ENABLE_DEBUG_STATE_TYPE
+		+ 1
+#endif
+#ifdef FFSM2_ENABLE_PLANS
+		+ 1
+#endif
+#ifdef FFSM2_ENABLE_SERIALIZATION
+		+ 1
+#endif
+#ifdef FFSM2_ENABLE_STRUCTURE_REPORT
+		+ 1
+#endif
+#ifdef FFSM2_ENABLE_TRANSITION_HISTORY
+		+ 1
+#endif
+#ifdef FFSM2_ENABLE_VERBOSE_DEBUG_LOG
+		+ 1
+#endif
+#ifdef FFSM2_ENABLE_LOG_INTERFACE
+		+ 1
+#endif
+		;
+}
+static_assert(tagBits(static_cast<unsigned>(ffsm2::FFSM2_FEATURE_TAG)) == switchesInEffect(), "a switch that is in effect is missing from FFSM2_FEATURE_TAG");
+
 struct Ctx { int n = 0; };
 struct Pay { int a; short b; };
 struct Ev  { int v; };
